@@ -1,2 +1,82 @@
+//! repr of text and bytes (C16): rustpython_literal::escape + Display for Constant.
+use crate::dump::jstr;
+use crate::{req_bytes, req_str};
+use rustpython_literal::escape::{AsciiEscape, Escape, Quote, UnicodeEscape};
 use serde_json::Value;
-pub fn dispatch(_op: &str, _req: &Value) -> Option<String> { None }
+
+fn q(qu: Quote) -> &'static str {
+    match qu {
+        Quote::Single => "'",
+        Quote::Double => "\"",
+    }
+}
+fn olen(l: Option<usize>) -> String {
+    l.map(|v| v.to_string()).unwrap_or_else(|| "null".into())
+}
+
+pub fn dispatch(op: &str, req: &Value) -> Option<String> {
+    Some(match op {
+        "str_repr" => {
+            let s = req_str(req, "s");
+            let e = match req_str(req, "mode") {
+                "pref_double" => UnicodeEscape::with_preferred_quote(s, Quote::Double),
+                "forced_single" => UnicodeEscape::with_forced_quote(s, Quote::Single),
+                "forced_double" => UnicodeEscape::with_forced_quote(s, Quote::Double),
+                _ => UnicodeEscape::new_repr(s),
+            };
+            let disp = format!("{}", e.str_repr());
+            let ts = e.str_repr().to_string();
+            let mut body = String::new();
+            e.write_body(&mut body).unwrap();
+            #[cfg(feature = "treeops")]
+            let cd = jstr(&format!("{}", rustpython_ast::Constant::Str(s.to_string())));
+            #[cfg(not(feature = "treeops"))]
+            let cd = "null".to_string();
+            format!(
+                "{{\"repr\":{},\"to_string\":{},\"body\":{},\"quote\":{},\"len\":{},\"changed\":{},\"source_len\":{},\"const_display\":{}}}",
+                jstr(&disp),
+                ts.map(|t| jstr(&t)).unwrap_or_else(|| "null".into()),
+                jstr(&body),
+                jstr(q(e.layout().quote)),
+                olen(e.layout().len),
+                e.changed(),
+                e.source_len(),
+                cd
+            )
+        }
+        "bytes_repr" => {
+            let b = req_bytes(req, "b");
+            let e = match req_str(req, "mode") {
+                "pref_double" => AsciiEscape::with_preferred_quote(&b, Quote::Double),
+                "forced_single" => AsciiEscape::with_forced_quote(&b, Quote::Single),
+                "forced_double" => AsciiEscape::with_forced_quote(&b, Quote::Double),
+                _ => AsciiEscape::new_repr(&b),
+            };
+            let disp = format!("{}", e.bytes_repr());
+            let ts = e.bytes_repr().to_string();
+            let mut body = String::new();
+            e.write_body(&mut body).unwrap();
+            #[cfg(feature = "treeops")]
+            let cd = jstr(&format!("{}", rustpython_ast::Constant::Bytes(b.clone())));
+            #[cfg(not(feature = "treeops"))]
+            let cd = "null".to_string();
+            format!(
+                "{{\"repr\":{},\"to_string\":{},\"body\":{},\"quote\":{},\"len\":{},\"changed\":{},\"source_len\":{},\"const_display\":{}}}",
+                jstr(&disp),
+                ts.map(|t| jstr(&t)).unwrap_or_else(|| "null".into()),
+                jstr(&body),
+                jstr(q(e.layout().quote)),
+                olen(e.layout().len),
+                e.changed(),
+                e.source_len(),
+                cd
+            )
+        }
+        "is_printable_bulk" => {
+            let s = req_str(req, "s");
+            let v: Vec<&str> = s.chars().map(|c| if rustpython_literal::char::is_printable(c) { "true" } else { "false" }).collect();
+            format!("{{\"ok\":[{}]}}", v.join(","))
+        }
+        _ => return None,
+    })
+}
